@@ -1,10 +1,10 @@
 \* call histories on objects of the kind "jdoc": two objects with two texts (the harness substitutes pairs of
-\* catalogue texts for c1, c2), every sequence of up to three calls
+\* catalogue texts for c1, c2), every sequence of up to three calls (Check, Len, and reading one lexeme)
 SPECIFICATION Spec
 CONSTANTS
   Objects = {"o1","o2"}
   Contents = {"c1","c2"}
-  Ops = {"Check","Len"}
+  Ops = {"Check","Len","Next"}
   Registers = FALSE
   Sharing = FALSE
   Plan = ""
